@@ -445,7 +445,9 @@ LookupOK(e) == e.ok /\ IsQuads(e.id) /\ IsCanonRes(e.id, e.res) /\ e.class \in {
 Interior1OK(e) == e.ok /\ IsQuads(e.back) /\ IsCanonRes(e.back, e.res) /\ e.back_class \in {"deep", "in", "band"}
 \* the centre of a cell maps back to the cell; so does every point inside by more than the tolerance (C02)
 CentreOK(e) == e.ok /\ e.back = e.id
-Interior2OK(e) == e.class = "deep" => (e.ok /\ e.back = e.id)
+\* "deep": inside by more than the tolerance for both oracles; ring_deep: inside the REPORTED boundary polygon by more than
+\* the tolerance, which is what the property is stated on (the planar oracle does not see a wrong face -> sphere map)
+Interior2OK(e) == (e.class = "deep" \/ e.ring_deep) => (e.ok /\ e.back = e.id)
 
 ---------------------------------------------------------------------------
 (* C03: partition *)
